@@ -2,8 +2,14 @@
 import io
 import json
 import logging
+import types
 import warnings
+from collections import OrderedDict
+from collections.abc import Mapping
+from dataclasses import dataclass
 from typing import Protocol
+
+from vgi_rpc.rpc import CallContext, OutputCollector, ProducerState, Stream
 
 from drivers._data_util import enumerate_cases, faithful_counterexample, judge_dedup
 from vf import world
@@ -77,13 +83,48 @@ def _needle(m) -> str:
     return str(m) if isinstance(m, int) else m[:16]
 
 
-def concretize(levels: list[dict], vi: int, rng):
-    """abstract tree -> (claims dict, markers {leaf id: value}, plan per level for walking the logged record)"""
+class ROMap(Mapping):
+    """a Mapping that is not a dict (what a JWT library or a frozen config object may hand over)"""
+
+    def __init__(self, d: dict) -> None:
+        self._d = d
+
+    def __getitem__(self, k):
+        return self._d[k]
+
+    def __iter__(self):
+        return iter(self._d)
+
+    def __len__(self) -> int:
+        return len(self._d)
+
+    def __repr__(self) -> str:
+        return f"ROMap({self._d!r})"
+
+
+def _wrap_obj(d: dict, flavour: str, n: int):
+    if flavour == "plain":
+        return d
+    return [types.MappingProxyType(d), OrderedDict(d), ROMap(d)][n % 3]
+
+
+def plain(x):
+    """JSON view of a claims object of any flavour (for evidence / replay files)"""
+    if isinstance(x, Mapping):
+        return {str(k): plain(v) for k, v in x.items()}
+    if isinstance(x, (list, tuple)):
+        return [plain(v) for v in x]
+    return x
+
+
+def concretize(levels: list[dict], alias: int, flavour: str, vi: int, rng):
+    """abstract tree -> (claims mapping, markers {leaf id: value}, plan per level for walking the logged record)"""
     d = len(levels)
     kinds = ["str", "int", "deco"]
     markers = {"leaf": _marker(rng, "str" if vi == 0 else rng.choice(kinds))}
     plan = [None] * d
     child = markers["leaf"]
+    below_alias = None              # the container of level alias+1 (referenced twice)
     for j in range(d - 1, -1, -1):
         lv = levels[j]
         sib_first = bool(vi % 2) if vi < 2 else rng.random() < 0.5
@@ -95,98 +136,129 @@ def concretize(levels: list[dict], vi: int, rng):
             entry = {"kind": "obj", "key": kname, "sibkey": None}
             items = [(kname, child)]
             if lv["sib"] != "none":
-                sk = None
-                for _ in range(50):
-                    sk = _keyname(lv["sib"], rng, taken)
-                    if sk.lower() not in taken:
-                        break
+                sk = _keyname(lv["sib"], rng, taken)
+                taken.add(sk)
+                taken.add(sk.lower())
                 m = _marker(rng, "str" if vi == 0 else rng.choice(kinds))
                 markers[f"sib{j + 1}"] = m
                 entry["sibkey"] = sk
                 items = [(sk, m), (kname, child)] if sib_first else [(kname, child), (sk, m)]
-            cont = dict(items)
+            if alias and j == alias - 1:
+                ak = _keyname("n", rng, taken)                 # the same object once more, under a neutral key
+                items = [(ak, below_alias)] + items if (vi + d) % 2 else items + [(ak, below_alias)]
+                entry["aliaskey"] = ak
+            cont = _wrap_obj(dict(items), flavour, j + vi)
         else:
             entry = {"kind": "list", "index": 0}
-            cont = [child]
+            seq = [child]
             if lv["sib"] != "none":
                 m = _marker(rng, "str" if vi == 0 else rng.choice(kinds))
                 markers[f"sib{j + 1}"] = m
-                cont = [m, child] if sib_first else [child, m]
+                seq = [m, child] if sib_first else [child, m]
                 entry["index"] = 1 if sib_first else 0
+            cont = seq if flavour == "plain" else tuple(seq)
         plan[j] = entry
+        if alias and j == alias:
+            below_alias = cont
         child = cont
     return child, markers, plan
 
 
-def observe(line: str | None, markers: dict, plan: list[dict], levels: list[dict], mode: str) -> dict:
-    keys = {f"k{j}": "na" for j in range(1, 5)} | {f"s{j}": "na" for j in range(1, 5)}
+MAXD = 6
+
+
+def observe(line: str | None, markers: dict, plan: list[dict], levels: list[dict], cfg: dict) -> dict:
+    keys = {f"k{j}": "na" for j in range(1, MAXD + 1)} | {f"s{j}": "na" for j in range(1, MAXD + 1)}
     if line is None:
-        return {"mode": mode, "emitted": False, "claims": False, "leaked": [], "keys": keys}
+        return {"cfg": cfg, "emitted": False, "shed": False, "claims": False, "leaked": [], "keys": keys}
     leaked = sorted(lid for lid, m in markers.items() if _needle(m) in line)
     try:
         rec = json.loads(line)
     except Exception:  # noqa: BLE001
         rec = {}
     claims = rec.get("claims") if isinstance(rec, dict) else None
-    has_claims = bool(claims)
-    # walk the logged claims along the spine
+    shed = isinstance(rec, dict) and rec.get("truncated") in (True, "record_too_large")
     cur = claims
-    for j, (lv, pl) in enumerate(zip(levels, plan), start=1):
+
+    def status(container, key, subtree):
+        if not isinstance(container, dict) or key not in container:
+            return "missing"
+        txt = json.dumps(container[key], default=str)
+        return "verbatim" if any(_needle(m) in txt for m in subtree) else "redacted"
+
+    for j, (lv, pl) in enumerate(zip(levels, plan), start=1):        # walk the logged claims along the spine
         below = [markers["leaf"]] + [markers[f"sib{i}"] for i in range(j + 1, len(levels) + 1) if f"sib{i}" in markers]
         if pl["kind"] == "obj":
-            def status(container, key, subtree):
-                if not isinstance(container, dict) or key not in container:
-                    return "missing"
-                txt = json.dumps(container[key], default=str)
-                return "verbatim" if any(_needle(m) in txt for m in subtree) else "redacted"
             keys[f"k{j}"] = status(cur, pl["key"], below)
             if pl["sibkey"] is not None:
                 keys[f"s{j}"] = status(cur, pl["sibkey"], [markers[f"sib{j}"]])
             cur = cur.get(pl["key"]) if isinstance(cur, dict) else None
         else:
             cur = cur[pl["index"]] if isinstance(cur, list) and len(cur) > pl["index"] else None
-    return {"mode": mode, "emitted": True, "claims": has_claims, "leaked": leaked, "keys": keys}
+    return {"cfg": cfg, "emitted": True, "shed": bool(shed), "claims": bool(claims), "leaked": leaked, "keys": keys}
+
+
+@dataclass
+class C35PS(ProducerState):
+    n: int = 0
+
+    def produce(self, out: OutputCollector, ctx: CallContext) -> None:
+        out.finish()
 
 
 class C35Svc(Protocol):
     def u(self, x: int) -> int: ...
+    def s(self) -> Stream[ProducerState]: ...
 
 
 class C35Impl:
     def u(self, x: int) -> int:
         return x + 1
 
+    def s(self) -> Stream[C35PS]:
+        import pyarrow as pa
+        return Stream(output_schema=pa.schema([pa.field("v", pa.int64())]), state=C35PS())
+
 
 def run(ctx: Ctx) -> None:
     warnings.filterwarnings("ignore")
+    import pyarrow as pa
+
     from vgi_rpc import logging_utils as lu
     from vgi_rpc.rpc import AuthContext, RpcServer
     from vgi_rpc.rpc._server import _emit_access_log
 
     quick = ctx.quick
-    consts = {"MaxDepth": 3 if quick else 4, "Dev_TopLevelOnly": False}
-    invs = ["WellFormed", "NeutralHidesNothing", "FlatIsKeyByKey", "SubtreeHidden", "HiddenIffCovered", "IntendedCoversTopLevel",
-            "ModelHidesAllSensitive"]
+    consts = {"MaxDepth": 3 if quick else 4, "DeepDepth": 6, "Dev_TopLevelOnly": False}
+    invs = ["WellFormed", "NeutralHidesNothing", "FlatIsKeyByKey", "SubtreeHidden", "HiddenIffCovered", "AliasOnlyReveals",
+            "IntendedCoversTopLevel", "ModelHidesAllSensitive"]
     cases = enumerate_cases(ctx, "data", "Redact", constants=consts, invariants=invs)
-    # faithful variant (top-level-only redaction): TLC refutes the property on the model and returns a tree; that tree
-    # is one of the enumerated cases and is executed on the real code below
-    cex = faithful_counterexample(ctx, "data", "Redact", constants={"MaxDepth": 2, "Dev_TopLevelOnly": True},
+    configs = [c["case"] for c in enumerate_cases(ctx, "data", "Redact", constants={**consts, "MaxDepth": 1, "DeepDepth": 1},
+                                                 cases="Configs", expected="ConfigExpected", name="configs")]
+    # the design the code had when this check was built (top-level-only redaction): TLC refutes the property on that
+    # model and returns a tree; the tree is one of the enumerated cases and is executed on the real code below
+    cex = faithful_counterexample(ctx, "data", "Redact", constants={"MaxDepth": 2, "DeepDepth": 2, "Dev_TopLevelOnly": True},
                                   invariant="ModelHidesAllSensitive", name="Redact:faithful(Dev_TopLevelOnly)")
     ctx.extra["faithful_model_counterexample"] = cex or "(none: the faithful model satisfied the property)"
     ctx.exhaustive = True
     ctx.rule = ("case = one claims tree (spine of objects/lists to the depth bound, optional sibling leaf per level, key "
-                "class per object level) enumerated by TLC from Redact!Cases; non-trivial = distinct (concrete claims "
-                "object, redactor mode, formatter, leg) emitted through the real access-log path")
-    ctx.assume("trees are spines with at most one sibling leaf per container (branching <= 2); the fate of a leaf depends "
-               "only on the keys on its path", "markers are unique ASCII strings / 12-digit integers searched as substrings "
-               "of the serialized line", "sensitive / neutral key names are drawn from the lists in the property statement")
+                "class per object level, optional second reference to the level-2 container, a few deeper spines) "
+                "enumerated by TLC from Redact!Cases, logged under configurations from Redact!Configs; non-trivial = "
+                "distinct (concrete claims object, configuration, leg) emitted through the real access-log path")
+    ctx.assume("trees are spines with at most one sibling leaf per container (branching <= 2) and at most one aliased "
+               "sub-object; the fate of a leaf depends only on the keys on the paths to it",
+               "markers are unique ASCII strings / 12-digit integers searched as substrings of the serialized line",
+               "sensitive / neutral key names are drawn from the lists in the property statement",
+               "every tree is logged under the base configuration, one raising-redactor configuration and a round-robin "
+               "selection of the other Redact!Configs (not the full product)")
 
     # ---- the real logging path
     logging.getLogger("vgi_rpc").setLevel(logging.CRITICAL)        # silences "claim redactor raised" warnings
     alog = logging.getLogger("vgi_rpc.access")
     buf = io.StringIO()
     handler = logging.StreamHandler(buf)
-    fmts = {"json": lu.VgiJsonFormatter(), "access": lu.VgiAccessLogFormatter()}
+    fmts = {"json": lu.VgiJsonFormatter(), "access": lu.VgiAccessLogFormatter(),
+            "capped": lu.VgiAccessLogFormatter(max_record_bytes=520)}
     old = (alog.level, alog.propagate, list(alog.handlers))
     for h in old[2]:
         alog.removeHandler(h)
@@ -213,7 +285,26 @@ def run(ctx: Ctx) -> None:
             return {k: v["x"] for k, v in claims.items()}      # TypeError/KeyError half-way through a real transformation
         return r
 
-    # end-to-end leg: an authenticated HTTP call whose AuthContext carries the claims
+    def emit(claims, cfg: dict, kind: int) -> tuple[str | None, str | None]:
+        alog.setLevel(logging.DEBUG if cfg["level"] == "debug" else logging.INFO)
+        handler.setFormatter(fmts[cfg["fmt"]])
+        if cfg["mode"] == "raising":
+            lu.set_claim_redactor(raiser_factory(kind))
+        auth = AuthContext("jwt", True, "alice", claims) if cfg["auth"] else AuthContext(None, False, None, claims)
+        err = None
+        try:
+            take()
+            try:
+                _emit_access_log("C35Svc", "u", "unary", "srv-c35", auth, {"remote_addr": "10.1.2.3"}, 1.25, "ok")
+            except BaseException as e:  # noqa: BLE001
+                err = repr(e)
+            lines = take()
+        finally:
+            lu.set_claim_redactor(lu.redact_claims)
+            alog.setLevel(logging.INFO)
+        return (lines[-1] if lines else None), err
+
+    # end-to-end leg: authenticated HTTP calls (unary and stream init) whose AuthContext carries the claims
     from vgi_rpc.http._testing import make_sync_client
     cell = {"claims": {}}
 
@@ -222,52 +313,53 @@ def run(ctx: Ctx) -> None:
 
     server = RpcServer(C35Svc, C35Impl())
     client = make_sync_client(server, authenticate=authenticate, token_key=b"k" * 32)
-    body = world.raw_request(b"u", server.methods["u"].params_schema, {"x": 1})
+    body_u = world.raw_request(b"u", server.methods["u"].params_schema, {"x": 1})
+    body_s = world.raw_request(b"s", pa.schema([]), {})
 
+    BASE = {"mode": "default", "level": "info", "flavour": "plain", "auth": True, "fmt": "json"}
+    others = [g for g in configs if g["mode"] == "default" and g != BASE and g != {**BASE, "fmt": "access"}]
+    raising = [g for g in configs if g["mode"] == "raising"]
+    ctx.rng.shuffle(others)
+    ctx.rng.shuffle(raising)
+    n_extra = 1 if quick else 3
+    rr = 0
     records: list[dict] = []
     n_http = 0
+    cfg_use: dict[str, int] = {}
     try:
         for ci, cj in enumerate(cases):
             case, exp = cj["case"], cj["exp"]
-            levels = case["levels"]
-            nvar = 2 if (quick or ci % 3) else 3
-            for vi in range(nvar):
-                claims, markers, plan = concretize(levels, vi, ctx.rng)
-                fname = "json" if (vi + ci) % 2 == 0 else "access"
-                handler.setFormatter(fmts[fname])
-                for mode in ("default", "raising"):
-                    if mode == "raising":
-                        if vi > 0:
-                            continue
-                        lu.set_claim_redactor(raiser_factory(ci % 3))
-                    try:
-                        take()
-                        err = None
-                        try:
-                            _emit_access_log("C35Svc", "u", "unary", "srv-c35", AuthContext("jwt", True, "alice", claims),
-                                             {"remote_addr": "10.1.2.3"}, 1.25, "ok")
-                        except BaseException as e:  # noqa: BLE001
-                            err = e
-                        lines = take()
-                    finally:
-                        lu.set_claim_redactor(lu.redact_claims)
-                    o = observe(lines[-1] if lines else None, markers, plan, levels, mode)
-                    records.append({"case": case, "obs": o, "_claims": claims, "_line": lines[-1] if lines else None,
-                                    "_leg": "emit", "_fmt": fname, "_exp": exp, "_err": repr(err) if err else None})
-                    ctx.case(["emit", mode, fname, json.dumps(claims, sort_keys=True, default=str)])
-                # end-to-end (sampled): the same claims through a real authenticated HTTP unary call
-                if vi == 0 and (ci % (7 if quick else 11) == 0 or len(levels) == 1):
+            levels, alias = case["levels"], case["alias"]
+            plan_cfgs = [{**BASE, "fmt": "json" if ci % 2 == 0 else "access"}, raising[ci % len(raising)]]
+            for _ in range(n_extra):
+                plan_cfgs.append(others[rr % len(others)])
+                rr += 1
+            for vi, cfg in enumerate(plan_cfgs):
+                claims, markers, plan = concretize(levels, alias, cfg["flavour"], vi, ctx.rng)
+                line, err = emit(claims, cfg, ci % 3)
+                o = observe(line, markers, plan, levels, cfg)
+                records.append({"case": case, "obs": o, "_claims": plain(claims), "_line": line, "_leg": "emit", "_exp": exp,
+                                "_err": err})
+                key = ",".join(f"{k}={cfg[k]}" for k in ("mode", "level", "flavour", "auth", "fmt"))
+                cfg_use[key] = cfg_use.get(key, 0) + 1
+                ctx.case(["emit", key, json.dumps(plain(claims), sort_keys=True, default=str)])
+                # end-to-end (sampled): the same claims through a real authenticated HTTP call
+                if vi == 0 and (ci % (7 if quick else 11) == 0 or len(levels) == 1 or len(levels) > consts["MaxDepth"]):
                     cell["claims"] = claims
+                    handler.setFormatter(fmts[cfg["fmt"]])
                     take()
-                    r = client.post("/u", content=body, headers={"Content-Type": world.ARROW_CT})
-                    lines = [ln for ln in take() if '"method": "u"' in ln]
+                    stream = (ci // 7) % 2 == 1
+                    r = client.post("/s/init" if stream else "/u", content=body_s if stream else body_u,
+                                    headers={"Content-Type": world.ARROW_CT})
+                    meth = '"method": "s"' if stream else '"method": "u"'
+                    lines = [ln for ln in take() if meth in ln]
                     n_http += 1
-                    o = observe(lines[-1] if lines else None, markers, plan, levels, "default")
                     if r.status_code != 200:
                         raise AssertionError(f"harness: HTTP leg returned {r.status_code}")
-                    records.append({"case": case, "obs": o, "_claims": claims, "_line": lines[-1] if lines else None,
-                                    "_leg": "http", "_fmt": fname, "_exp": exp, "_err": None})
-                    ctx.case(["http", "default", fname, json.dumps(claims, sort_keys=True, default=str)])
+                    for ln in (lines or [None]):
+                        records.append({"case": case, "obs": observe(ln, markers, plan, levels, cfg), "_claims": plain(claims),
+                                        "_line": ln, "_leg": "http-stream" if stream else "http-unary", "_exp": exp, "_err": None})
+                    ctx.case(["http", stream, json.dumps(plain(claims), sort_keys=True, default=str)])
     finally:
         lu.set_claim_redactor(lu.redact_claims)
         alog.removeHandler(handler)
@@ -276,26 +368,30 @@ def run(ctx: Ctx) -> None:
         alog.setLevel(old[0])
         alog.propagate = old[1]
     ctx.extra["http_end_to_end_executions"] = n_http
+    ctx.extra["configurations_exercised"] = len(cfg_use)
+    ctx.extra["configurations_total"] = len(configs)
     hist: dict[str, int] = {}
     for cj in cases:
-        k = f"shallowest_sensitive_key_depth={cj['exp']['sensdepth']}"
+        k = f"depth={len(cj['case']['levels'])},shallowest_sensitive_key_depth={cj['exp']['sensdepth']}"
         hist[k] = hist.get(k, 0) + 1
-    ctx.extra["cases_by_sensitive_depth"] = hist
-    picks = [r for r in records if r["obs"]["mode"] == "default"]
+    ctx.extra["cases_by_depth_and_sensitive_depth"] = hist
+    picks = [r for r in records if r["obs"]["cfg"]["mode"] == "default"]
     for r in picks[:: max(1, len(picks) // 5)][:5]:
-        ctx.sample({"abstract_tree": r["case"]["levels"], "concrete_claims": r["_claims"], "leg": r["_leg"],
-                    "formatter": r["_fmt"], "logged_line": (r["_line"] or "")[:600], "observed": r["obs"]})
+        ctx.sample({"abstract_tree": r["case"], "concrete_claims": r["_claims"], "leg": r["_leg"],
+                    "logged_line": (r["_line"] or "")[:600], "observed": r["obs"]})
     bad = judge_dedup(ctx, "data", "Redact", [{"case": r["case"], "obs": r["obs"]} for r in records],
-                      constants={**consts, "MaxDepth": 1}, chunk=40000)     # Conforms is independent of the case-space bound
+                      constants={**consts, "MaxDepth": 1, "DeepDepth": 1}, chunk=40000)   # Conforms is independent of the bounds
     for idx, clauses in bad:
         r = records[idx]
-        levels, o, exp = r["case"]["levels"], r["obs"], r["_exp"]
+        levels, o, exp, cfg = r["case"]["levels"], r["obs"], r["_exp"], r["obs"]["cfg"]
+        al = r["case"]["alias"]
 
         def cover_depth(leaf: str) -> int:
-            """depth of the outermost sensitive key above a hidden leaf"""
+            """depth of the outermost sensitive key that covers a hidden leaf"""
             top = len(levels) if leaf == "leaf" else int(leaf[3:]) - 1
             for i in range(top):
-                if levels[i]["kind"] == "obj" and levels[i]["key"] != "n":
+                bypassed = al and i == al - 1 and (leaf == "leaf" or int(leaf[3:]) > al)   # reachable through the alias key
+                if levels[i]["kind"] == "obj" and levels[i]["key"] != "n" and not bypassed:
                     return i + 1
             return int(leaf[3:]) if leaf != "leaf" else 0
         for cl in clauses:
@@ -305,9 +401,9 @@ def run(ctx: Ctx) -> None:
                 depths = [int(k[1:]) for k in exp["mustshow"] if o["keys"].get(k) != "redacted"]
             else:
                 depths = [0]
-            ctx.violation(cl, {"mode": o["mode"], "leg": r["_leg"], "key_depth": min(depths) if depths else 0,
-                               "containers": ">".join(lv["kind"] for lv in levels),
+            ctx.violation(cl, {"mode": cfg["mode"], "leg": r["_leg"], "key_depth": min(depths) if depths else 0,
+                               "level": cfg["level"], "flavour": cfg["flavour"], "auth": cfg["auth"], "fmt": cfg["fmt"],
+                               "alias": r["case"]["alias"], "containers": ">".join(lv["kind"] for lv in levels),
                                "key_classes": ">".join((lv["key"] if lv["kind"] == "obj" else "-") + ("+" + lv["sib"] if lv["sib"] != "none" else "") for lv in levels)},
-                          {"abstract_tree": levels, "claims": r["_claims"], "logged_line": r["_line"], "observed": o,
-                           "expected_hidden": exp["hidden"], "expected_visible_redacted_keys": exp["mustshow"],
-                           "formatter": r["_fmt"]})
+                          {"abstract_tree": r["case"], "claims": r["_claims"], "logged_line": r["_line"], "observed": o,
+                           "expected_hidden": exp["hidden"], "expected_visible_redacted_keys": exp["mustshow"]})
